@@ -176,6 +176,11 @@ func TestVerifC14(t *testing.T) {
 			if side == "data" {
 				payload, other = txb, otherTx
 			}
+			// the empty payload (the property's sizes start at 0; its CRC64 is 0, the value a decoder may mistake for "no
+			// checksum"): every fourth case replays its second repetition with it, through the reassembly function only
+			if rep == 1 && ci%4 == 1 {
+				payload, other, side, checksum = []byte{}, []byte("frame of another payload"), "raw", "crc64"
+			}
 			if c.N > len(payload) && len(payload) > 0 {
 				continue
 			}
@@ -275,6 +280,9 @@ func TestVerifC14(t *testing.T) {
 				var err error
 				p := vt.Guard(func() { got, err = tooling.LoadDataFromDataFrames(&first, getter) })
 				emit("tooling.LoadDataFromDataFrames", got, payload, err, p)
+			}
+			if side == "raw" {
+				continue
 			}
 			{
 				var gtx, gmeta []byte
